@@ -487,7 +487,12 @@ fn suite_ids(g: &Gram, out: &mut Out, seed: u64, table: &Value) {
             }
         }
     }
-    // variable-arity type requests whose operand lists are prefixes / extensions of one another
+    suite_prefix_types(g, out, seed);
+}
+
+/// variable-arity type requests whose operand lists are prefixes / extensions of one another (C13: never share an id;
+/// C12: no call panics; C06: the declarations carry the call's arguments)
+fn suite_prefix_types(g: &Gram, out: &mut Out, seed: u64) {
     for (method, fixed) in [("type_struct", 0usize), ("type_function", 1)] {
         let mut s = new_session(g, out, "new", seed);
         let lists: Vec<Vec<u32>> = vec![vec![11, 12], vec![11], vec![11, 12], vec![11, 12, 13], vec![], vec![12, 11], vec![11], vec![]];
@@ -509,7 +514,7 @@ pub fn drive(args: &[String]) {
     let seed = arg_num(args, "--seed", 1);
     let mut histories = 0;
     match arg(args, "--suite").unwrap_or("methods") {
-        "methods" => { suite_methods(&g, &mut out, seed, &table); suite_switch64(&g, &mut out, seed); }
+        "methods" => { suite_methods(&g, &mut out, seed, &table); suite_switch64(&g, &mut out, seed); suite_prefix_types(&g, &mut out, seed); }
         "ids" => { suite_ids(&g, &mut out, seed, &table); }
         "histories" => {
             let f = std::io::BufReader::new(std::fs::File::open(arg(args, "--histories").expect("--histories")).unwrap());
